@@ -25,6 +25,7 @@ import LarkVerif.Priority
 import LarkVerif.Choice
 import LarkVerif.Recons
 import LarkVerif.ForestVisit
+import LarkVerif.TableSer
 import Std.Data.HashMap
 /-! Line-protocol driver: one JSON request per stdin line (`{"op": ...}`), one JSON answer per stdout line.
     Runs the *executable definitions the theorems are about*.  Not part of the proof library. -/
@@ -610,6 +611,38 @@ def handle (j : Json) : Except String Json := do
   | "lr_feed" => runLrFeed j
   | "rule_size" => runRuleSize j
   | "choose" => runChoose j
+  | "table_ser" =>
+    -- {"table": [[state, [[name, kind, arg]...]]...], "enc": {"tokens": [...], "states": [[state, [[idx, kind, arg]...]]...]}}
+    let actOf (k a : Json) : Except String TableSer.Act := do
+      if (← k.getNat?) == 0 then pure (.shift (← a.getNat?)) else pure (.reduce (← a.getNat?))
+    let actJ : TableSer.Act → List Json
+      | .shift n => [natJ 0, natJ n] | .reduce r => [natJ 1, natJ r]
+    let table : TableSer.Table ← (← getArr j "table").mapM fun st => do
+      match (← st.getArr?).toList with
+      | [n, row] =>
+        let r ← (← row.getArr?).toList.mapM fun e => do
+          match (← e.getArr?).toList with
+          | [t, k, a] => pure ((← t.getStr?), (← actOf k a))
+          | _ => throw "row entry"
+        pure ((← n.getNat?), r)
+      | _ => throw "state"
+    let enc ← j.getObjVal? "enc"
+    let etoks ← (← getArr enc "tokens").mapM (·.getStr?)
+    let estates : TableSer.ETable ← (← getArr enc "states").mapM fun st => do
+      match (← st.getArr?).toList with
+      | [n, row] =>
+        let r ← (← row.getArr?).toList.mapM fun e => do
+          match (← e.getArr?).toList with
+          | [i, k, a] => pure ((← i.getNat?), (← actOf k a))
+          | _ => throw "row entry"
+        pure ((← n.getNat?), r)
+      | _ => throw "state"
+    let s := TableSer.serialize table
+    let tableJ (T : TableSer.Table) : Json := Json.arr (T.map fun (n, row) => Json.arr #[natJ n, Json.arr (row.map fun (t, a) => Json.arr (Json.str t :: actJ a).toArray).toArray]).toArray
+    pure (Json.mkObj [("tokens", Json.arr (s.1.map Json.str).toArray),
+      ("states", Json.arr (s.2.map fun (n, row) => Json.arr #[natJ n, Json.arr (row.map fun (i, a) => Json.arr (natJ i :: actJ a).toArray).toArray]).toArray),
+      ("round", Json.bool (TableSer.deserialize s == some table)),
+      ("deser_of_code", match TableSer.deserialize (etoks, estates) with | some T => tableJ T | none => Json.null)])
   | "forest_visit" =>
     -- {"nodes": [id...], "kids": [[id, [child...]]...], "toks": [id...], "sv": bool, "root": id}: the event sequence of ForestVisitor.visit
     let nodes ← natListOf (← j.getObjVal? "nodes")
